@@ -18,7 +18,6 @@ import (
 	"os"
 	"os/signal"
 	"runtime"
-	"runtime/pprof"
 	"sort"
 	"strings"
 	"sync"
@@ -1318,12 +1317,7 @@ func main() {
 		keys, vals = quickKeys, quickVals
 	}
 	ops = buildOps()
-	if pf := os.Getenv("C20_PROF"); pf != "" {
-		f, _ := os.Create(pf)
-		pprof.StartCPUProfile(f)
-	}
 	st := search(run, depth)
-	pprof.StopCPUProfile()
 	var ks, vs []string
 	for _, k := range keys {
 		ks = append(ks, qb(k))
